@@ -53,6 +53,12 @@ impl<H: Hasher> BatchMerkleProof<H> {
 
         let depth = paths[0].len();
 
+        // leaves of a batch proof are stored in the order in which the caller lists the indexes
+        // (this is the order `MerkleTree::prove_batch` produces and `get_root` expects)
+        let num_leaves = indexes.len();
+        let leaf_positions: BTreeMap<usize, usize> =
+            indexes.iter().enumerate().map(|(position, &index)| (index, position)).collect();
+
         // sort indexes in ascending order, and also re-arrange paths accordingly
         let mut path_map = BTreeMap::new();
         for (&index, path) in indexes.iter().zip(paths.iter().cloned()) {
@@ -63,15 +69,15 @@ impl<H: Hasher> BatchMerkleProof<H> {
         let paths = path_map.values().cloned().collect::<Vec<_>>();
         path_map.clear();
 
-        let mut leaves = vec![H::Digest::default(); indexes.len()];
+        let mut leaves = vec![H::Digest::default(); num_leaves];
         let mut nodes: Vec<Vec<H::Digest>> = Vec::with_capacity(indexes.len());
 
         // populate values and the first layer of proof nodes
         let mut i = 0;
         while i < indexes.len() {
-            leaves[i] = paths[i][0];
+            leaves[leaf_positions[&indexes[i]]] = paths[i][0];
             if indexes.len() > i + 1 && are_siblings(indexes[i], indexes[i + 1]) {
-                leaves[i + 1] = paths[i][1];
+                leaves[leaf_positions[&indexes[i + 1]]] = paths[i][1];
                 nodes.push(vec![]);
                 i += 1;
             } else {
